@@ -49,6 +49,12 @@ def skeletons():
         "{pre} fn f() {{ {{ {a} let k = fn() {{ {b} {{ {c} }} push(obs, x); }}; k(); }} }} f(); {post}",
         "{pre} {{ {{ {a} let k = fn() {{ {b} }}; {c} k(); }} }} {post}",
         "{pre} fn f() {{ if true {{ {a} {{ {b} let k = fn() {{ {c} push(obs, y); }}; k(); k(); }} }} }} f(); {post}",
+        # a parameter spelled like the function (it hides the function's own name inside the body); the same for a local
+        "{pre} fn x(x) {{ {a} push(obs, x); {b} }} x(77); {c} {post}",
+        "{pre} let y = fn(y, x) {{ {a} push(obs, y); push(obs, x); {b} }}; y(5, 6); {c} {post}",
+        "{pre} fn x(p) {{ let x = p + 1; {a} push(obs, x); {b} }} x(8); {c} {post}",
+        # closures with several captured variables used non-commutatively
+        "{pre} fn mk(p, q) {{ let r = 3; {a} return fn() {{ {b} push(obs, p - q); push(obs, [p, q, r, x]); }}; }} let k = mk(10, 4); {c} k(); {post}",
         # the enclosing function's own name used from a function nested in it
         "{pre} fn f(n) {{ {a} let g = fn() {{ {b} if n > 0 {{ return f(n - 1); }} return 7; }}; {c} return g(); }} push(obs, f(1)); {post}",
         "{pre} let f = fn(n) {{ {a} let g = fn(m) {{ {b} if m > 0 {{ return f(m - 1); }} return 100; }}; {c} if n > 0 {{ return g(n); }} return 7; }}; push(obs, f(2)); {post}",
